@@ -239,6 +239,12 @@ class Gen:
                     L.append(f"drop {n}"); self.dropped.add(n)
                     if r.random() < 0.3: L.append("gc")
                     n2 = self.fresh("s"); L.append(f"route {n2} {rn} {key}"); self.add_stream(n2, self.t(s)); self.ident[n2] = f"route:{rn}:{key}:again"
+                elif r.random() < self.p.get("routelate", 0.0):
+                    # the only handle is dropped and the key is requested again later, from inside a handler of another route
+                    L.append(f"drop {n}"); self.dropped.add(n)
+                    L.append(f"routelate {self.fresh('l')} {rn} {r.randint(0, 2)} {key}")
+            if r.random() < self.p.get("routelate", 0.0):
+                L.append(f"routelate {self.fresh('l')} {rn} {r.randint(0, 2)} {r.randint(0, 2)}")
         elif kind in ("sloop", "cloop"):
             return self.gen_loop(kind)
         else:
